@@ -315,7 +315,7 @@ def fix_nodes(n):
 
 INPUTS = ['-', '(i 0)', '(i 5)',
           f'(l (p (s {symbol_value("a")}) (i 1)) (p (s {symbol_value("b")}) (cl 120)) (i 7))',
-          f'(p (s {symbol_value("x")}) (i 9))', '(cl 104 105)']
+          f'(p (s {symbol_value("x")}) (i 9))', '(cl 104 105)', '(p (i 1) (i -5))']
 
 
 def gen_program(rnd, depth):
@@ -345,6 +345,29 @@ def features(n, acc=None):
 
 
 # ---- small-exhaustive enumeration -------------------------------------------------------------------------------
+
+def operator_pairs():
+    """every ordered pair (outer operator, inner operator) of the core language with the inner one in every operand
+    position of the outer one, atoms elsewhere; printed with minimal parentheses this exercises every precedence and
+    associativity decision between two operators once"""
+    two = [(sp, (lambda l, r, sp=sp: binop(sp, l, r))) for sp in BINOPS]
+    two += [('pair', lambda l, r: Node('pair', None, [l, r], 'pair')), ('slist', lambda l, r: Node('slist', None, [l, r], 'slist')),
+            ('clist', lambda l, r: Node('clist', None, [l, r], 'clist')), ('cond', lambda l, r: Node('cond', True, [l, r], 'cond')),
+            ('and', lambda l, r: Node('and', None, [l, r], 'and')), ('or', lambda l, r: Node('or', None, [l, r], 'or'))]
+    one = [(sp, (lambda e, sp=sp: prefix(sp, e))) for sp in PREFIX] + [(sp, (lambda e, sp=sp: suffix(sp, e))) for sp in SUFFIX]
+    def inner_nodes():
+        for name, mk in two:
+            yield name, (lambda mk=mk: mk(INPUT(), lit_int(2)))
+        for name, mk in one:
+            yield name, (lambda mk=mk: mk(INPUT()))
+    for oname, omk in two:
+        for iname, imk in inner_nodes():
+            yield f'{oname}/{iname}/L', fix_nodes(omk(imk(), lit_int(3)))
+            yield f'{oname}/{iname}/R', fix_nodes(omk(lit_int(3), imk()))
+    for oname, omk in one:
+        for iname, imk in inner_nodes():
+            yield f'{oname}/{iname}', fix_nodes(omk(imk()))
+
 
 def enumerate_small(max_ops, ops):
     """all ASTs with <= max_ops operator nodes over a reduced constructor set"""
